@@ -18,13 +18,17 @@ def _engine():
 
 
 def _verify_one(q):
+    """q: a qualified name, or (qualified name, i, n) for the i-th of n slices of its argument-kind forks"""
     from . import specsym, vc
     from .common import NativeServer
+    sl = None
+    if isinstance(q, tuple):
+        q, sl = q[0], (q[1], q[2])
     eng = _engine()
     eng.kind_gaps.clear()
     t0 = time.time()
     try:
-        r = vc.verify_function(eng, q, eng.contracts[q], specsym.make_args)
+        r = vc.verify_function(eng, q, eng.contracts[q], specsym.make_args, fork_slice=sl)
         out = dict(qualname=q, obligations=r.obligations, paths=r.paths, forks=r.forks, covers=r.covers,
                    limitation=r.limitation, source_hash=r.source_hash, wall=time.time() - t0, hints=dict(eng.hints),
                    kind_gaps=sorted(eng.kind_gaps))
@@ -147,12 +151,41 @@ def run_functions(report, qualnames, tier="quick", bounded_limit=None, monitor=T
         run_bounded(report, q, tier, "the function is outside the verifier's loop forms (contract stated, bounded-checked only)")
         report.functions[q] = {"regime": "bounded stand-in only"}
     results = []
-    if len(qualnames) > 2:
-        with cf.ProcessPoolExecutor(max_workers=min(NCPU, len(qualnames))) as ex:
-            for r in ex.map(_verify_one, qualnames):
-                results.append(r)
+    # functions with many argument-kind forks are split over several processes (every n-th fork each)
+    tasks = []
+    for q in qualnames:
+        nf = len(_engine().contracts[q].get("forks", [{}])) if not callable(_engine().contracts[q].get("forks")) else 1
+        n = min(NCPU, nf // 48) if nf >= 96 else 1
+        tasks += [q] if n <= 1 else [(q, i, n) for i in range(n)]
+    if len(tasks) > 2:
+        with cf.ProcessPoolExecutor(max_workers=min(NCPU, len(tasks))) as ex:
+            parts = list(ex.map(_verify_one, tasks))
     else:
-        results = [_verify_one(q) for q in qualnames]
+        parts = [_verify_one(t) for t in tasks]
+    merged = {}
+    for r in parts:
+        m = merged.get(r["qualname"])
+        if m is None:
+            merged[r["qualname"]] = r
+            continue
+        m["obligations"] += r["obligations"]
+        m["paths"] += r["paths"]
+        m["forks"] += r["forks"]
+        m["wall"] = max(m["wall"], r["wall"])
+        m["limitation"] = m["limitation"] or r["limitation"]
+        m["source_hash"] = m["source_hash"] or r["source_hash"]
+        m["kind_gaps"] = sorted(set(map(tuple, m.get("kind_gaps", []))) | set(map(tuple, r.get("kind_gaps", []))))
+        for k, v in r["covers"].items():
+            m["covers"][k] = m["covers"].get(k, 0) + v
+        m["hints"].update(r["hints"])
+    sliced = {t[0] for t in tasks if isinstance(t, tuple)}
+    for q in sliced:
+        m = merged[q]
+        for k, n in m["covers"].items():
+            if n == 0 and not m["limitation"] and not contracts.ALL[q].get("cover_optional", {}).get(k):
+                m["obligations"].append({"name": f"{q} cover: {k} exit is reachable", "status": "failed", "backend": "cover",
+                                         "time_s": 0.0, "kind": "cover", "model": None, "fork": None, "detail": None})
+    results = [merged[q] for q in qualnames]
     from .common import NativeServer
     NativeServer.stop()
     for r in results:
@@ -161,8 +194,12 @@ def run_functions(report, qualnames, tier="quick", bounded_limit=None, monitor=T
         report.functions[q] = {"source_sha256_16": r["source_hash"], "forks": r["forks"], "paths": r["paths"],
                                "covers": r["covers"], "regime": "proved" if not r["limitation"] else "bounded stand-in",
                                "wall_s": round(r["wall"], 2)}
+        gaps = {}
         for callee, pname, tag in r.get("kind_gaps", []):
-            a = f"{q} calls {callee} with {pname} of kind {tag}, outside the kinds that contract was verified for (assumed to hold there too)"
+            gaps.setdefault((callee, pname), []).append(tag)
+        for (callee, pname), tags in gaps.items():
+            a = (f"{q} calls {callee} with `{pname}` of kind {', '.join(sorted(set(tags)))}: outside the argument kinds that "
+                 "callee's contract was verified for (its contract is assumed to hold there too)")
             if a not in report.assumptions:
                 report.assumptions.append(a)
         failed_groups = {}
